@@ -61,7 +61,7 @@ def run():
     chk.build_and_audit()
     r = C.rng("C04")
     quick = C.tier() != "thorough"
-    specs = scenarios(r, 140 if quick else 1500)
+    specs = scenarios(r, C.T(140, 1500))
     fails = D.run_specs(chk, "driver-level rows/memory vs search.py, _results_manager.py, _memory.py", specs, monitor)
     chk.monitor("C04 statement on the real runs (recompute objective per row, order, DataFrame)", len(specs), fails)
     scen.shutdown_manager()
